@@ -13,6 +13,7 @@ sink contents and fault plans.
   the payload, one attempt per fault that fires plus one.
 * `never_partial` — whatever the plan (also beyond the budget): after every attempt the visible object is the previous one or the
   complete payload; no temp file stays.
+* `no_self_inflicted_attempt` — whatever the plan: never more attempts than injected faults plus one.
 * `bounded_local_s3`, `persistent_error_local_s3` — at most `max_tries` attempts; persistent faults end in an exception.
 * `bounded_partial`, `persistent_error_partial` — the same for all three backends for plans without the B2 fault class below.
 * `b2_status_unbounded_witness` — B2 without a bound on re-authentication rounds (what the source has): ANY number of consecutive
@@ -86,6 +87,15 @@ theorem never_partial (b : Backend) (c : Nat) (hc : 0 < c) (data : Bytes) (old :
     ((runUp b (cfgOf b) c fuel plan data 0 data.length old).final.visible = old ∨
       (runUp b (cfgOf b) c fuel plan data 0 data.length old).final.visible = some data) :=
   runUp_never_partial b (cfgOf b) (cfg_sound b).1 c hc data old plan fuel
+
+/-- **No self-inflicted attempt.**  For every plan: the client never needs more attempts than faults were injected, plus one —
+no attempt fails because of what an earlier attempt (or the digest pass) left behind. -/
+theorem no_self_inflicted_attempt (b : Backend) (c : Nat) (hc : 0 < c) (data : Bytes) (old : Option Bytes) (sink0 : Bytes) (file : Bool)
+    (plan : List Fault) (fuel : Nat) :
+    (runUp b (cfgOf b) c fuel plan data 0 data.length old).attempts ≤ plan.length + 1 ∧
+    (runDown b (cfgOf b) c fuel plan data sink0 0 file).attempts ≤ plan.length + 1 :=
+  ⟨runUp_attempts_le b (cfgOf b) (cfg_sound b).1 c hc data old plan fuel,
+   runDown_attempts_le b (cfgOf b) (cfg_sound b).2.1 c hc data sink0 file plan fuel⟩
 
 /-! ## bounded -/
 
